@@ -199,7 +199,14 @@ def check_C07(ctx):
 
     def cmp_table():
         im = pdb.trait_impl("core::convert::From", HRANK, ["u16"])
-        frm = ctx.summ(im["items"]["from"], [("v", v)]).ret
+        # (the conversion's own panic sites are decided over every value, not by the ledger of this rule)
+        old_total_ = ctx.total_rule
+        ctx.total_rule = None
+        smf_ = ctx.summ(im["items"]["from"], [("v", v)])
+        ctx.total_rule = old_total_
+        frm = smf_.ret
+        from .cards import total_over_scalar as _tos7
+        _tos7(ctx, "C07.no-panic.from", smf_, "v", "u16", [0, 1, 10, 7462, 7463, 32767, 32768, 65535])
         ctx.check_shadow(HRANK, "from", "core::convert::From", im["items"]["from"], None)
         # the ranks that are compared are what the conversion stores: the value itself, its name and its class
         fields_ = [f["name"] for f in pdb.adt(HRANK)["variants"][0]["fields"]]
